@@ -8,7 +8,7 @@ tree has such a numbering — creation order).  `build ps` is the block index th
 that tree (`newBlockNode` per node, skip pointers computed by `Ancestor` on the parent).  The naive
 answers are the `Spec.*` walks over `Spec.parentOf ps`.
 -/
-import BV.C17.LemmasSetTip
+import BV.C17.LemmasLocate
 import BV.Generated.C17
 namespace BV.C17
 open Spec Lemmas
@@ -152,5 +152,65 @@ theorem findFork_eq_lca (ps : List Nat) (hv : ValidFrom 1 ps) (t n : Nat)
   refine ⟨?_, rfl⟩
   rw [← parent_build]
   exact Lemmas.findFork_eq_lca wf t n (by omega) (by omega)
+
+/-! ### block locator -/
+
+/-- `blockLocator(n)` on the view of any tip `t` lists, for main-chain and side-chain nodes alike,
+    the ancestors of `n` at the heights `locatorHeights (depth n)` -/
+theorem locator_eq_spec (ps : List Nat) (hv : ValidFrom 1 ps) (t n : Nat)
+    (ht : t ≤ ps.length) (hn : n ≤ ps.length) :
+    let P := parentOf ps
+    let v : View := (pathDown P t).map some
+    (blockLocator (build ps) v (some n)).map some =
+      (locatorHeights (depth P n)).map (fun (k : Nat) => ancestorAt P n (k : Int)) ∧
+    blockLocator (build ps) v none = blockLocator (build ps) v (some t) ∧
+    blockLocator (build ps) [] none = [] := by
+  obtain ⟨wf, hs⟩ := wf_build ps hv
+  simp only []
+  rw [← parent_build, depth_eq wf n (by omega)]
+  refine ⟨blockLocator_spec wf _ (coherent_pathView wf t (by omega)) n (by omega), ?_, rfl⟩
+  have := tip_pathView wf t (by omega : t < (build ps).size)
+  unfold pathView at this
+  unfold blockLocator
+  rw [this]
+
+/-- the heights of a locator started at height `h`: starts at `h`, the first 12 entries step down
+    by one, heights strictly decrease, and the last entry is height 0 (the root) -/
+theorem locator_heights (h : Nat) :
+    (locatorHeights h)[0]? = some h ∧
+    (∀ i, i ≤ 11 → i ≤ h → (locatorHeights h)[i]? = some (h - i)) ∧
+    (locatorHeights h).Pairwise (· > ·) ∧
+    (locatorHeights h).getLast? = some 0 ∧
+    (∀ k ∈ locatorHeights h, k ≤ h) :=
+  ⟨locatorHeightsAux_head h h 1 0,
+   fun i hi hih => locatorHeightsAux_singles i (h+1) h 0 hih (by omega) (Nat.le_refl _),
+   locatorHeightsAux_desc _ _ _ _ (Nat.le_refl _),
+   locatorHeightsAux_last _ _ _ _ (Nat.le_refl _) (Nat.le_refl _),
+   fun k hk => locatorHeightsAux_le _ _ _ _ k hk⟩
+
+example : locatorHeights 100 = [100, 99, 98, 97, 96, 95, 94, 93, 92, 91, 90, 89, 87, 83, 75, 59, 27, 0] := by
+  decide
+
+/-! ### locator-driven inventory -/
+
+/-- `locateBlocks` / `locateHeaders` (via `locateInventory`) on the view of tip `t` never
+    dereference nil and return exactly `Spec.locate`: the blocks following the first locator entry
+    that is on the active chain (after the root when none is: unknown, side-chain and unordered
+    entries are skipped), consecutive, through the stop block or `max` entries; with an empty
+    locator, the stop block alone when it is known (on any branch) -/
+theorem locateInventory_eq_spec (ps : List Nat) (hv : ValidFrom 1 ps) (t : Nat) (ht : t ≤ ps.length)
+    (locator : List Nat) (stop max : Nat) :
+    let P := parentOf ps
+    locateBlocks (build ps) ((pathDown P t).map some) locator stop max =
+      some (locate (pathDown P t) (fun n => decide (n ≤ ps.length)) locator stop max) := by
+  obtain ⟨wf, hs⟩ := wf_build ps hv
+  simp only []
+  rw [← parent_build]
+  have := locateBlocks_eq_spec wf t (by omega) locator stop max
+  unfold pathView at this
+  rw [this]
+  congr 2
+  funext n
+  simp [Index.known, hs]; omega
 
 end BV.C17
